@@ -117,12 +117,14 @@ def axes(rank, neg=True):
 
 
 def dim_lists(rank):
-    """int[] dim menus: each single axis (both signs), pairs, all axes, empty list"""
+    """int[] dim menus: each single axis (both signs), EVERY ordered pair of distinct axes with both signs
+    (not a hand-picked subset: a seeded defect needed (-2, -1)), all axes (non-negative and negative), empty"""
     out = [[d] for d in axes(rank)]
     if rank >= 2:
-        out += [[0, 1], [0, -1], [-1, 0]]
+        ax = axes(rank)
+        out += [[a, b] for a in ax for b in ax if a % rank != b % rank]
     if rank >= 3:
-        out += [[0, 2], [-3, -1], [0, 1, 2]]
+        out += [list(range(rank)), list(range(-rank, 0)), list(range(-1, -rank - 1, -1))]
     out.append([])
     return out
 
